@@ -126,6 +126,28 @@ def deviation(case, res):
     """None if the native outcome conforms to the reference, else a description"""
     if "panic" in res or "crash" in res:
         return "panic/crash: %s" % str(res)[:200]
+    if case.get("in_step_only"):
+        if res.get("ok") and res.get("replies") and res.get("consumed") != len(bytes.fromhex(case.get("content", ""))):
+            return "the hub replied %s but consumed %s of the %d content bytes: the next bytes on the stream would be parsed as requests" % (
+                res["replies"][0][:60], res.get("consumed"), len(bytes.fromhex(case.get("content", ""))))
+        if res.get("outside") != ["outside/sentinel"]:
+            return "files outside the served directory changed: %s" % res.get("outside")
+        return None
+    if case.get("truthful"):
+        # only: the reply must be TRUE of the tree (an acknowledged commit is the live content, an acknowledged conflict copy exists,
+        # an acknowledged delete removed the path)
+        reps = res.get("replies", [])
+        after = res.get("tree_after", {})
+        p_ = case.get("path")
+        if reps and "committed: true" in reps[0] and after.get(p_) != case.get("content"):
+            return "the hub acknowledged the write as COMMITTED but %r does not hold the bytes afterwards (tree: %s)" % (p_, sorted(after))
+        if reps and "committed: false" in reps[0] and not any(k.startswith(p_ + ".conflict-") and v == case.get("content") for k, v in after.items()):
+            return "the hub reported a conflict copy but none holding the uploaded bytes exists (tree: %s)" % sorted(after)
+        if reps and "deleted: true" in reps[0] and any(k == p_ or k.startswith(p_ + "/") for k in after):
+            return "the hub acknowledged the delete but %r is still there (tree: %s)" % (p_, sorted(after))
+        if res.get("outside") != ["outside/sentinel"]:
+            return "files outside the served directory changed: %s" % res.get("outside")
+        return None
     if case.get("degenerate"):
         if res.get("outside") != ["outside/sentinel"]:
             return "files outside the served directory changed: %s" % res.get("outside")
@@ -175,6 +197,13 @@ def deviation(case, res):
 def scenarios():
     tree = {"a.txt": hx(b"hi"), "d/b.bin": hx(b"\x00\x01\x02")}
     out = []
+    # a legal 250-byte name whose `.copia-tmp` sibling exceeds NAME_MAX: staging cannot be created. Whatever the hub does
+    # (I/O error ending the session, or an error reply), it must not leave content bytes unread behind an error REPLY
+    out.append({"fn": "hub_step", "tree": tree, "op": "put", "path": "x" * 250, "expected": None, "content": hx(b"abcdef"), "hash": "CONTENT", "in_step_only": True})
+    # a name that is an existing DIRECTORY on the hub: whatever is replied must be true of the tree afterwards
+    for e in (None, "STALE"):
+        out.append({"fn": "hub_step", "tree": tree, "op": "put", "path": "d", "expected": e, "content": hx(b"abc"), "hash": "CONTENT", "truthful": True})
+    out.append({"fn": "hub_step", "tree": tree, "op": "delete", "path": "d", "expected": None, "truthful": True})
     for path in ("a.txt", "d/b.bin", "new.txt", "d/e/new.txt", "../x", "/abs", "d/../../y", "d/..", "..", "a..b", "d/./b.bin"):
         for e in (None, "CURRENT", "STALE"):
             for content in (b"", b"abc"):
@@ -245,7 +274,7 @@ def strace_case(case, profile="dev"):
         os.remove(log)
     except OSError:
         pass
-    res = [json.loads(l) for l in p.stdout.split("\n") if l.strip()]
+    res = [json.loads(l) for l in p.stdout.split("\n") if l.startswith("{")]
     return ev, (res[0] if res else {})
 
 
@@ -313,6 +342,9 @@ def required_order(what, trace):
     if any((o[0] == "remove" and o[1] == "lockfile") or (o[0] == "rename" and "lockfile" in o[1]) for o in ops):
         return "the lock file is removed/renamed while in use (a waiter then holds a lock on an unlinked inode)"
     if what == "handle_put":
+        for o in ops:
+            if o[0] == "rename" and o[1][1] in ("live", "conflict") and o[1][0] != "staging":
+                return "content reaches %s by a rename from `%s`, which is not the reserved `<path>.copia-tmp` staging name (two different paths can then share one staging file)" % (o[1][1], o[1][0])
         ren = idx(lambda o: o[0] == "rename" and o[1][0] == "staging")
         if ren < 0:
             return None                       # nothing published in this scenario
